@@ -20,6 +20,8 @@ type c04Extra struct {
 	Generation int               `json:"generation"` // which compiler generation runs
 	Gofmt      bool              `json:"gofmt"`      // compare after gofmt
 	Expect     map[string]string `json:"expect"`     // path -> base64 of the bytes the file must have
+	// SkipIfRejected: an invocation fc rejects is not judged (grouped samples: nothing promises they can share one)
+	SkipIfRejected bool `json:"skip_if_rejected,omitempty"`
 }
 
 func gofmtBytes(src []byte) ([]byte, error) {
@@ -71,6 +73,9 @@ func judgeC04(c *Ctx, sc *Scenario) *Violation {
 
 func c04Oracle(sc *Scenario, exp *c04Extra, r *Result) *Violation {
 	ex := *exp
+	if r.Exit != 0 && ex.SkipIfRejected {
+		return nil
+	}
 	if r.Exit != 0 {
 		return &Violation{Class: "stage-failed", Signature: "C04:" + ex.Stage + ":exit",
 			Detail: fmt.Sprintf("%s: the generation-%d tool exited %d on the repository's own sources: %s", ex.Stage, ex.Generation, r.Exit, tail(r.Stdout+r.Stderr, 400))}
@@ -254,6 +259,54 @@ func checkC04(tier string) {
 	for _, s := range mkScheds(sampleM, 99) {
 		jobs = append(jobs, job{c04Scenario(c, tool, run, c04Extra{Stage: "tool", Generation: 1, Gofmt: true, Expect: expectOf(tool.Outputs)}, s)})
 		run++
+	}
+	// other groupings of the same sources into invocations (the statement does not fix one): all listed samples in
+	// one fc invocation, and random sub-lists of them (list order kept). A grouped invocation that fc rejects is
+	// skipped (samples are separate programs, nothing promises they can share an invocation); one that is accepted
+	// must reproduce the checked-in files like the one-at-a-time recipe does.
+	{
+		gr := common.NewRng(common.Mix(c.Seed, 44))
+		groups := [][]int{}
+		all := make([]int, len(samples))
+		for i := range all {
+			all[i] = i
+		}
+		groups = append(groups, all)
+		nGroups := 12
+		if !quick {
+			nGroups = 300
+		}
+		for k := 0; k < nGroups; k++ {
+			var g []int
+			want := gr.Range(2, 6)
+			for i := range samples {
+				if gr.Intn(len(samples)) < want {
+					g = append(g, i)
+				}
+			}
+			if len(g) >= 2 {
+				groups = append(groups, g)
+			}
+		}
+		foi := mustRead(filepath.Join(repo, "pkg", "pkg_all.foi"))
+		for gi, g := range groups {
+			files := map[string][]byte{"pkg/pkg_all.foi": foi}
+			argv := []string{"pkg/pkg_all.foi"}
+			for _, i := range g {
+				a := samples[i].Argv[1]
+				files[a] = mustRead(filepath.Join(repo, a))
+				argv = append(argv, a)
+			}
+			p := newProgram(fmt.Sprintf("samples-grouped:%d(%d files)", gi, len(g)), argv, files, "corpus")
+			scheds := []EnumSched{{Mode: "identity"}}
+			if gi == 0 {
+				scheds = mkScheds(sampleM, 98)
+			}
+			for _, s := range scheds {
+				jobs = append(jobs, job{c04Scenario(c, p, run, c04Extra{Stage: "samples-grouped", Generation: 1, Gofmt: true, Expect: expectOf(p.Outputs), SkipIfRejected: true}, s)})
+				run++
+			}
+		}
 	}
 	type outcome struct {
 		sc *Scenario
